@@ -18,12 +18,16 @@ def decode_msg(m: Any) -> Any:
         return m
     out: Dict[str, Any] = {}
     for k, v in m.items():
-        if k == "$headers_as":
+        if k in ("$headers_as", "$body_as"):
             continue
         if isinstance(v, dict) and "$raw" in v:
             out[k] = v["$raw"]
         elif k in BYTES_FIELDS and isinstance(v, str):
             out[k] = s2b(v)
+            if m.get("$body_as") == "bytearray":  # other bytes-like payloads applications pass
+                out[k] = bytearray(out[k])
+            elif m.get("$body_as") == "memoryview":
+                out[k] = memoryview(out[k])
         elif k == "headers" and isinstance(v, list):
             hs = []
             for h in v:
